@@ -19,7 +19,7 @@ ASSUMPTIONS = ["the source is a raw HDF5 video (contiguous frames); faults are i
                "the echo model stands in for the network (the property is about the reader/consumer protocol)",
                "a hang is decided logically: producer finished and queue empty and consumer parked in Queue.get on 3 consecutive polls (or the mirror state); watchdog expiry otherwise is inconclusive"]
 SHARDS = {"quick": 8, "thorough": 16}
-N = {"quick": 2400, "thorough": 60000}
+N = {"quick": 2400, "thorough": 120000}
 BUDGET = {"quick": 100, "thorough": 1500}
 TIMEOUT = {"quick": 600, "thorough": 3000}
 SELF_SHARDED = True
